@@ -369,7 +369,7 @@ class Host(object):
                 self.model.pop(path, None)   # state unknown from here on
             return False
         if not wrote:
-            if verdict == "must_write":
+            if verdict == "must_write" and not existed:       # a new path: nothing to read first, no reason to fail
                 self.__dict__.setdefault("unwritten", []).append(path)
             if verdict == "must_write" and "model" in self.oracles:
                 res.violate("SAVE-REFUSED:%s%s" % (want, "+append" if append else ""),
@@ -399,8 +399,8 @@ class Host(object):
         return True
 
     def check_saved_elsewhere(self, r, k):
-        """A target that had to be written was left alone, the command reports nothing wrong, and a new file appeared
-        beside the targets: the image went to the wrong place."""
+        """A target at a new path had to be written and is not there, the command reports nothing wrong, and a new file
+        appeared beside the targets: the image went to the wrong place."""
         unwritten, beside = self.__dict__.get("unwritten", []), self.__dict__.get("new_beside", [])
         if unwritten and beside and r.status == 0 and not r.crashed:
             self.res.violate("SAVED-ELSEWHERE", "%s had to be written and was not, exit status 0, and %s appeared instead" % (
